@@ -388,6 +388,7 @@ def run(pid, tier, replay=None):
                     # pool content: 0..3 admissible transactions with arbitrary fees
                     head_abs = [a for a in rt.stored if w3.by_abs[a].hash() == run_.node.chain().current_chain_hash][0]
                     used = set()
+                    pending = []
                     for k in range(rng.randint(0, 3)):
                         t = rt.valid_tx(rt.utxo_of(head_abs), 60000 + i * 100 + round_ * 10 + k, used)
                         if t is None:
@@ -396,6 +397,20 @@ def run(pid, tier, replay=None):
                         openp = [p for p in run_.peers if run_.node.is_open(p)]
                         if openp:
                             run_.deliver_tx(rng.choice(openp), w3.concretise_tx(td), label="pool")
+                            pending.append(t)
+                    # a block that already contains one of the pending transactions extends the head -- as a relayed block or as the answer
+                    # to a request during a re-synchronisation (bulk download, not validated individually): the miner's next candidate is
+                    # assembled from the new head and whatever is pending then
+                    if pending and rng.random() < 0.4:
+                        rec.force_irt = rng.choice([0, 77, 77])
+                        try:
+                            res, m = rt.step(force="", parent=head_abs, include=[rng.choice(pending)])
+                        finally:
+                            rec.force_irt = None
+                        lab.append(["head_extended_by_a_block_with_a_pending_tx", res])
+                        heads_ = [a for a in rt.stored if w3.by_abs[a].hash() == run_.node.chain().current_chain_hash]
+                        if heads_:
+                            head_abs = heads_[0]
                     # fault: one connection's descriptor dies while it is still registered (the broadcast must survive it)
                     if rng.random() < 0.25:
                         alive = [p for p in run_.peers if run_.node.is_open(p)]
@@ -414,7 +429,9 @@ def run(pid, tier, replay=None):
                         # stale view, deterministically: the miner has asked once (its own copy of the chain state is the old head), the
                         # network thread then extends the head, and the clock is not ahead of the new head's timestamp
                         run_.clock.t = max(head_ts - 20, 1)
-                        run_.mine_request(rng.randrange(1 << 20))
+                        if run_.mine_request(rng.randrange(1 << 20)) is None:
+                            lab.append(["request_raised", 0])
+                            break
                         res, m = rt.step(force="", parent=head_abs)
                         lab.append(["net_extends_head_after_a_request", res])
                         head_ts = run_.node.chain().head().timestamp
@@ -422,7 +439,9 @@ def run(pid, tier, replay=None):
                         run_.clock.t = head_ts + off
                         interleave = False
                     for nonce in range(rng.randrange(1 << 20), (1 << 20) + 4000):
-                        run_.mine_request(nonce)
+                        if run_.mine_request(nonce) is None:
+                            lab.append(["request_raised", off])
+                            break
                         if interleave and not found and rng.random() < 0.5:
                             # the network thread advances the served state between request and result
                             res, m = rt.step()
